@@ -99,13 +99,18 @@ def gen_svc_case(rng, big=False):
     types = rng.choice([[T], [T], [T, T2], [T2, T]])
     qtype = rng.choice([None, None, "QU", "QM"])
     multicast = rng.random() < 0.8
-    prev = None
-    r = rng.random()
-    if r < 0.75:
+    # earlier askers, oldest first: `gap` = ms before `now`.  Two or more of them with gaps around 999/1000 ms and identical
+    # known sets exercise "every QM ask (re)stamps the history"
+    prevs = []
+    k = rng.choice([0, 1, 1, 2, 2, 3])
+    if k:
         gap = rng.choice([0, 1, 500, 998, 999, 1000, 1001, 5000])
-        mode = rng.choice(["same", "same", "fewer", "more", "responder", "responder-more"])
-        prev = {"gap": gap, "mode": mode, "qtype": rng.choice([qtype, "QM", "QM", "QU"])}
-    return {"stream": "svc", "now": now, "recs": recs, "noise": noise, "types": types, "qtype": qtype, "multicast": multicast, "prev": prev}
+        for j in range(k):
+            mode = rng.choice(["same", "same", "same", "fewer", "more", "responder", "responder-more"])
+            prevs.append({"gap": gap, "mode": mode, "qtype": rng.choice([qtype, "QM", "QM", "QM", "QU"])})
+            gap += rng.choice([0, 1, 500, 998, 999, 1000, 1000, 1001, 1500])
+        prevs.reverse()
+    return {"stream": "svc", "now": now, "recs": recs, "noise": noise, "types": types, "qtype": qtype, "multicast": multicast, "prevs": prevs}
 
 
 def run_svc(case, res):
@@ -119,33 +124,63 @@ def run_svc(case, res):
         recs.append(DNSText(T, const._TYPE_TXT, const._CLASS_IN, 4500, b"\x00", created=float(now)))
         recs.append(DNSService("Inst0." + T, const._TYPE_SRV, const._CLASS_IN | const._CLASS_UNIQUE, 120, 0, 0, 80, "h.local.", created=float(now)))
     qmap = {None: None, "QU": DNSQuestionType.QU, "QM": DNSQuestionType.QM}
-    prev = case["prev"]
+    from zeroconf._cache import DNSCache
+
+    prevs = case.get("prevs") or ([case["prev"]] if case.get("prev") else [])
     extra = ptr(T, "Extra." + T, 4500, now - 10)
-    if prev:
-        then = now - prev["gap"]
-        if prev["mode"].startswith("responder"):
+    types = sorted(case["types"])
+    pairs = []
+
+    def base_of(mode):
+        if mode == "fewer":
+            return recs[: len(recs) // 2]
+        if mode in ("more", "responder-more"):
+            return recs + [extra]
+        return recs
+
+    def known_ids(base, ty, t):
+        return frozenset((r.name.lower(), r.alias.lower()) for r in base if isinstance(r, type(extra)) and r.name.lower() == ty.lower()
+                         and r.type == const._TYPE_PTR and r.class_ == const._CLASS_IN and not r.is_stale(t))
+
+    # the property's own bookkeeping, independent of the library: question -> (time of the last QM sighting, its known answers)
+    spec = {}
+
+    def ask(t, base, qtype, final):
+        z.cache = DNSCache()
+        z.cache.async_add_records(base)
+        pre_hist, pre_cache = hist_tokens(z.question_history), cache_tokens(z.cache)
+        qu_ = (not case["multicast"]) if qtype is None else qtype == "QU"
+        outs_ = B.generate_service_query(z, float(t), set(case["types"]), case["multicast"], qmap[qtype])
+        pairs.append(("c13svc %d %s %s %s %d %s" % (t, C.b01(qu_), pre_cache, pre_hist, len(types), " ".join(C.hs(x) for x in types)),
+                      "%s || %s" % (outs_str(outs_, float(t)), hist_str(z.question_history))))
+        expect = {}
+        for ty in case["types"]:
+            known = known_ids(base, ty, t)
+            e = spec.get(ty.lower())
+            sup_ = (not qu_) and e is not None and t - e[0] <= 999 and e[1] <= known
+            expect[ty] = (sup_, e)
+            if not qu_ and not sup_:
+                spec[ty.lower()] = (t, known)
+        return outs_, qu_, expect
+
+    for pv in prevs:
+        then = now - pv["gap"]
+        if pv["mode"].startswith("responder"):
             # heard on the link as an authoritative responder: recorded with the querier's known answers
             for ty in case["types"]:
-                known = {r for r in recs if r.name.lower() == ty.lower() and r.type == const._TYPE_PTR and not r.is_stale(then)}
-                if prev["mode"] == "responder-more" and ty == T:
+                known = {r for r in recs if isinstance(r, type(extra)) and r.name.lower() == ty.lower() and r.type == const._TYPE_PTR
+                         and r.class_ == const._CLASS_IN and not r.is_stale(then)}
+                ids_ = known_ids(recs, ty, then)
+                if pv["mode"] == "responder-more" and ty == T:
                     known.add(extra)
-                if prev["qtype"] != "QU":
+                    ids_ = ids_ | {(T, extra.alias.lower())}
+                if pv["qtype"] != "QU":
                     z.question_history.add_question_at_time(DNSQuestion(ty, const._TYPE_PTR, const._CLASS_IN), float(then), known)
+                    spec[ty.lower()] = (then, ids_)
         else:
-            z.cache.async_add_records(recs if prev["mode"] != "fewer" else recs[: len(recs) // 2])
-            if prev["mode"] == "more":
-                z.cache.async_add_records([extra])
-            B.generate_service_query(z, float(then), set(case["types"]), case["multicast"], qmap[prev["qtype"]])
-            if prev["mode"] == "more":
-                z.cache.async_remove_records([extra])
-    z.cache.async_add_records(recs)
-    pre_hist = hist_tokens(z.question_history)
-    pre_cache = cache_tokens(z.cache)
-    qu = (not case["multicast"]) if case["qtype"] is None else case["qtype"] == "QU"
-    outs = B.generate_service_query(z, float(now), set(case["types"]), case["multicast"], qmap[case["qtype"]])
-    types = sorted(case["types"])
-    line = "c13svc %d %s %s %s %d %s" % (now, C.b01(qu), pre_cache, pre_hist, len(types), " ".join(C.hs(t) for t in types))
-    impl = "%s || %s" % (outs_str(outs, float(now)), hist_str(z.question_history))
+            ask(then, base_of(pv["mode"]), pv["qtype"], False)
+    outs, qu, expect = ask(now, recs, case["qtype"], True)
+    prev = prevs[-1] if prevs else None
     # ---- oracle on the implementation's output (packets)
     bad = []
     cached = [r for bucket in z.cache.cache.values() for r in bucket]
@@ -171,34 +206,15 @@ def run_svc(case, res):
     for ty in case["types"]:
         want = sorted((r.alias, int((r.created + 1000 * r.ttl - now) // 1000)) for r in cached
                       if r.name.lower() == ty.lower() and r.type == const._TYPE_PTR and r.class_ == const._CLASS_IN and now < r.created + 500 * r.ttl)
-        # suppression expected?
-        sup = False
-        if prev:
-            if prev["mode"].startswith("responder"):
-                prev_recorded = prev["qtype"] != "QU"
-            else:
-                prev_qu = (not case["multicast"]) if prev["qtype"] is None else prev["qtype"] == "QU"
-                prev_recorded = not prev_qu
-            if not qu and prev_recorded and prev["gap"] <= 999:
-                then = now - prev["gap"]
-                if prev["mode"].startswith("responder"):
-                    base = recs
-                else:
-                    base = recs if prev["mode"] != "fewer" else recs[: len(recs) // 2]
-                pk_known = {(r.name.lower(), r.alias.lower()) for r in base if isinstance(r, type(extra)) and r.name.lower() == ty.lower()
-                            and r.class_ == const._CLASS_IN and not r.is_stale(then)}
-                if prev["mode"] in ("more", "responder-more") and ty == T:
-                    pk_known.add((T, extra.alias.lower()))
-                ours = {(r.name.lower(), r.alias.lower()) for r in cached if isinstance(r, type(extra)) and r.name.lower() == ty.lower()
-                        and r.class_ == const._CLASS_IN and now < r.created + 500 * r.ttl}
-                sup = pk_known <= ours
+        sup, entry = expect[ty]
         got = asked.get(ty)
         if sup:
             if got is not None:
-                bad.append(("C13:not-suppressed", "QM question %s asked %d ms after the same question with a known-answer list we cover" % (ty, prev["gap"])))
+                bad.append(("C13:not-suppressed", "QM question %s asked %d ms after the same question was last asked/heard with a known-answer list we cover (earlier askers: %s)"
+                            % (ty, now - entry[0], prevs)))
             continue
         if got is None:
-            bad.append(("C13:wrongly-suppressed" if not qu else "C13:qu-suppressed", "question %s (qu=%s) was not asked; earlier asker: %s" % (ty, qu, prev)))
+            bad.append(("C13:wrongly-suppressed" if not qu else "C13:qu-suppressed", "question %s (qu=%s) was not asked; earlier askers: %s" % (ty, qu, prevs)))
             continue
         if got["qu"] != (qu and case["multicast"]):
             bad.append(("C13:qu-bit", "question %s has QU bit %s, expected %s" % (ty, got["qu"], qu and case["multicast"])))
@@ -215,9 +231,9 @@ def run_svc(case, res):
     ids = {name: i for i, name in enumerate(order)}
     gline = "c13grp %d %s" % (len(order), " ".join("%d %d" % (qk[n], ids[n]) for n in order))
     gimpl = "|".join(sorted(",".join(str(i) for i in sorted(ids[q.name] for q in o.questions)) for o in outs))
-    sig = (case["qtype"], case["multicast"], bool(prev) and (prev["mode"], min(prev["gap"], 1001)), min(len(case["recs"]), 50), len(outs),
-           sum(len(o.packets()) for o in outs) > len(outs))
-    return [(line, impl), (gline, gimpl, "grp")], bad, sig
+    sig = (case["qtype"], case["multicast"], tuple((pv["mode"], min(pv["gap"], 2500) // 250, pv["qtype"]) for pv in prevs), min(len(case["recs"]), 50),
+           len(outs), sum(len(o.packets()) for o in outs) > len(outs))
+    return pairs + [(gline, gimpl, "grp")], bad, sig
 
 
 # ------------------------------------------------------------------------------------------
@@ -296,7 +312,7 @@ def run_req(case, res):
 def gen_hear_case(rng):
     return {"stream": "hear", "simseed": rng.randint(0, 10**6), "gap": rng.choice([0, 1, 500, 998, 999, 1000, 1001, 3000]),
             "qu": rng.random() < 0.3, "nknown": rng.choice([0, 1, 3]), "extra": rng.random() < 0.4, "registered": rng.random() < 0.85,
-            "ours": rng.choice([0, 1, 3])}
+            "ours": rng.choice([0, 1, 3]), "cover": rng.random() < 0.45}
 
 
 def run_hear(case, res):
@@ -316,6 +332,9 @@ def run_hear(case, res):
         await sim.sleep_ms(5000)
         now0 = sim.loop.ms
         mine = [ptr(T, "Inst%d.%s" % (i, T), 4500, now0 - 1000) for i in range(case["ours"])]
+        if case.get("cover"):
+            # our own service's pointer is in our cache (as after hearing our own announcement) ...
+            mine.append(ptr(T, "Mine." + T, 4500, now0 - 1000))
         zc.cache.async_add_records(mine)
         q = DNSOutgoing(const._FLAGS_QR_QUERY)
         qq = DNSQuestion(T, const._TYPE_PTR, const._CLASS_IN)
@@ -324,6 +343,9 @@ def run_hear(case, res):
         theirs = [ptr(T, "Inst%d.%s" % (i, T), 4500, now0) for i in range(case["nknown"])]
         if case["extra"]:
             theirs.append(ptr(T, "Other." + T, 4500, now0))
+        if case.get("cover"):
+            # ... and the peer already knows it: every answer we could give is suppressed, the question is heard all the same
+            theirs.append(ptr(T, "Mine." + T, 4500, now0))
         for r in theirs:
             q.add_answer_at_time(r, 0)
         pre = hist_tokens(zc.question_history)
@@ -351,7 +373,7 @@ def run_hear(case, res):
     if out["hear"][1] is not None:
         # the records of the incoming message carry created = arrival time
         pairs.append(out["hear"])
-    sig = ("hear", case["gap"], case["qu"], case["registered"], theirs_set <= ours_set)
+    sig = ("hear", case["gap"], case["qu"], case["registered"], theirs_set <= ours_set, bool(case.get("cover")))
     return pairs, bad, sig
 
 
